@@ -1,8 +1,9 @@
 """C18 — debug and quiet options change what is printed, never what is simulated."""
 from props.common_prog import judge_prog
 
-THEOREM_MODULES = ["Hcl.Theorems.C18", "Hcl.Tie.PinsTable"]
-THEOREMS = {"Hcl.Theorems.C18": ["C18_ungrouped_lists", "C18_grouped_lists", "C18_listed_once", "C18_value_reads_back",
+THEOREM_MODULES = ["Hcl.Theorems.C18", "Hcl.Theorems.C18Messages", "Hcl.Tie.PinsTable"]
+THEOREMS = {"Hcl.Theorems.C18Messages": ["C18_message_memory_read", "C18_message_memory_read_always", "C18_message_memory_not_read", "C18_message_memory_write", "C18_message_memory_not_written", "C18_message_register_read", "C18_message_register_read_general", "C18_message_register_read_in_cycle", "C18_message_register_write", "C18_message_assign", "C18_message_status", "C18_messages_do_not_change_state", "C18_messages_ok_iff", "C18_cycle_lines_are_action_lines", "C18_trace_extends_debug", "C18_register_names"],
+            "Hcl.Theorems.C18": ["C18_ungrouped_lists", "C18_grouped_lists", "C18_listed_once", "C18_value_reads_back",
                                  "C18_value_width"],
             "Hcl.Tie.PinsTable": ["Tie.PinsTable.pinFindTableWidths", "Tie.PinsTable.pinDumpWireSubtable"]}
 
@@ -12,6 +13,7 @@ RULE = ("options: random S-PROG programs (all profiles, 1-12 cycles) are stepped
         "compared with the Lean model and the specification), and under -d no table row may repeat a name or list a "
         "constant. table: the -d wire table (grouped and ungrouped) printed by the real code in every cycle is compared "
         "byte for byte with Dump.wireTable (names up to 60 bytes, widths 0-128: the value column widens beyond 22). "
+        "messages: the lines --trace-assignments and -d print about every assignment and every built-in component in every cycle (memory read/write with address and data, 'not reading/writing', register read/write with number, name and value), as a sorted list per cycle, byte for byte against Dump.cycleMessages. "
         "trace/disasm: the instruction line printed in every mode except -q, for every pair of first two instruction bytes and random pcs/memories, against the model (no panic). distinct = (program text, option sample); non-trivial = accepted programs.")
 
 
@@ -39,6 +41,20 @@ def judge_table(req, impl, model, spec):
     return {"corr": corr, "oracle": ok, "what": what, "key": None if rej else req, "cats": cats}
 
 
+def judge_messages(req, impl, model, spec):
+    rej = impl.startswith("rej")
+    ok = impl != "PANIC"
+    cats = ["trace-assignments" if "(assigns 1)" in req else "debug"]
+    if rej:
+        cats.append("rejected")
+    for key, cat in (("bytes from memory at mem_addr", "memory-read"), ("not reading from memory", "not-reading"), (" to memory at ", "memory-write"),
+                     ("not writing to memory", "not-writing"), (" from register ", "register-read"), (" into register ", "register-write")):
+        if key in impl:
+            cats.append(cat)
+    return {"corr": impl == model, "oracle": ok, "what": "" if ok else "printing the activity messages panicked", "key": None if rej else req,
+            "cats": cats}
+
+
 def judge_trace(req, impl, model, spec):
     # the per-cycle instruction line is printed in every mode but -q: it must never take the simulation down
     ok = not impl.startswith("PANIC")
@@ -50,5 +66,6 @@ def streams(tier, seed):
     q = tier == "quick"
     return [{"name": "options", "stream": "options", "count": 250 if q else 10000, "judge": judge_options},
             {"name": "table", "stream": "table", "count": 300 if q else 12000, "judge": judge_table},
+            {"name": "messages", "stream": "messages", "count": 300 if q else 12000, "judge": judge_messages},
             {"name": "trace", "stream": "trace", "count": 3000 if q else 100000, "judge": judge_trace},
             {"name": "disasm", "stream": "disasm", "count": 2 if q else 10, "judge": judge_trace}]
